@@ -91,7 +91,7 @@ typedef struct sim_inst {
 	long act_ord;            /* ordinal of the action being executed, -1 outside */
 	int in_action, is_eof;
 	int cur_rule, cur_len, more_prefix, prev_more, prev_len;
-	int did_textop, did_less, did_bufop, n_ops;
+	int did_textop, did_less, did_bufop, did_more, n_ops;
 	int provided_input;      /* EOF action gave the scanner something to read */
 	long lex_calls;
 	int cur_top;             /* index of the top-level op being executed */
